@@ -29,7 +29,7 @@ static void plain(void)
     static const size_t longs[] = {4095, 4096, 4097, 65535, 65536, 65537};
     uint8_t *msg = malloc(70000); hx_fill(msg, 70000, pat, 4);
     uint8_t *exp = malloc(70000);
-    for (int il = 0; il <= maxin + (tier ? 6 : 0); il++) {
+    for (int il = 0; il <= maxin + 6; il++) {   /* the six long lengths are part of every tier */
         size_t inlen = il <= maxin ? (size_t)il : longs[il - maxin - 1];
         const uint8_t *mp = inlen ? msg : 0;
         uint8_t *o = hx_buf(32), e[32];
@@ -66,7 +66,7 @@ static void plain(void)
         }
     }
     /* long outputs */
-    if (tier) for (unsigned i = 0; i < 6; i++) {
+    for (unsigned i = 0; i < 6; i++) {
         size_t ol = longs[i]; uint8_t *out = hx_buf(ol); xst s;
         ref_xof(A, msg, 9, exp, ol);
         x_init(&s); x_absorb(&s, msg, 9); x_squeeze(&s, out, ol); x_free(&s);
